@@ -1696,6 +1696,12 @@ func NewSession(budget int) *Session {
 	return &Session{in: in, scope: &scope{vars: map[string]bool{}, consts: map[string]bool{}}}
 }
 
+// DefineGlobal provides a host global (a name the host supplies with a value before the first piece).
+func (s *Session) DefineGlobal(name string, v Val) {
+	s.scope.vars[name] = true
+	s.in.globals.vars[name] = &Cell{V: v}
+}
+
 // Piece feeds one piece. syntaxError marks a piece the parser must reject.
 func (s *Session) Piece(prog []*lang.N, syntaxError bool) (out Outcome) {
 	if syntaxError {
